@@ -27,16 +27,28 @@ def mc_dist(W, GS, owner, nsteps, dev, inv, props, pgof=None):
     return tlc.run("MC_Dist", mod, cfg, tag="C06-mc", timeout=1800)
 
 
-def make_task(rng, W=None, GS=None, starve=None):
+BIG = dict(shapes=[[1024, 1024], [1024, 1024], [1024], [1024]], maxdim=1024, merge=False, ignored=[])   # > 4 MiB per rank, not a multiple of 4 MiB
+
+
+def make_task(rng, W=None, GS=None, starve=None, variant=None):
+    """variant "long": 22 steps with a constant presence pattern for 18 steps and changes afterwards (state that is only
+    refreshed / compared every so often); variant "big": megabytes per rank in the gather buffer."""
+    if variant == "big":
+        W, GS = 2, 2
+    elif variant == "long":
+        W = W or rng.choice([2, 2, 3, 4])
     W = W or rng.choice([1, 2, 2, 3, 4, 4, 6, 8])
     GS = GS or rng.choice([d for d in range(1, W + 1) if W % d == 0])
     name = rng.choice([k for k, t in DDP_TEMPLATES.items() if int(k[1:]) >= GS])
-    family.TEMPLATES["_ddp"] = DDP_TEMPLATES[name]
+    family.TEMPLATES["_ddp"] = BIG if variant == "big" else DDP_TEMPLATES[name]
     g = family.draw_group(rng, "_ddp", method=None)
     if g["kind"] == "soap":
         g["method"] = "eigh"
+    if variant == "big":
+        name = "big"
+        g.update(kind="shampoo", method="eigen", freq=1, start=1, override=0, mult=1.0)
     groups = [g]
-    if rng.random() < 0.3:          # a second parameter group: own distributor, same process groups, gathers one after the other
+    if variant is None and rng.random() < 0.3:          # a second parameter group: own distributor, same process groups, gathers one after the other
         name2 = rng.choice([k for k in DDP_TEMPLATES if int(k[1:]) >= GS])
         family.TEMPLATES["_ddp"] = DDP_TEMPLATES[name2]
         g2 = family.draw_group(rng, "_ddp", method=None)
@@ -53,7 +65,25 @@ def make_task(rng, W=None, GS=None, starve=None):
         elif r < 0.4:                                            # mixed-precision group, any order (narrow first included)
             gg["dtypes"] = [rng.choice(["bfloat16", "float32", "float32", "float64", "float16"]) for _ in range(n)]
     draw = family.make_draw(rng, groups, dtype="float32", pdtype="float32")
-    masks = dc.random_masks(rng, draw, rng.choice([3, 4, 5]))
+    if variant == "big":
+        for gg in groups:
+            gg.pop("dtypes", None)
+        draw.pop("grad_mode", None)
+        masks = [[[True] * len(g["shapes"])] for _ in range(2)]
+    elif variant == "long":
+        n_par = len(g["shapes"])
+        base = [True] * n_par
+        if n_par > 1 and rng.random() < 0.5:
+            base[rng.randrange(n_par)] = False              # a parameter that is frozen for the first 18 steps ...
+        masks = [[list(base)] for _ in range(18)]
+        cur = list(base)
+        for _ in range(4):                                   # ... and presence changes only afterwards
+            cur[rng.randrange(n_par)] ^= True
+            if not any(cur):
+                cur[rng.randrange(n_par)] = True
+            masks.append([list(cur)])
+    else:
+        masks = dc.random_masks(rng, draw, rng.choice([3, 4, 5]))
     return {"draw": draw, "W": W, "GS": GS, "comm": rng.choice(["fp32", "fp32", "bf16", "fp16"]), "comm_params": rng.random() < 0.4,
             "masks": masks, "seed": rng.randrange(1 << 30), "template": name}
 
@@ -173,6 +203,7 @@ def run(ctx):
            {"deviation": "LazyOwnerMesh", "violates": r2.violated}]
     ctx.put("deviation_witnesses", wit)
     tasks = [make_task(rng) for _ in range(40 if quick else 600)]
+    tasks += [make_task(rng, variant="long") for _ in range(4 if quick else 40)] + [make_task(rng, variant="big") for _ in range(1 if quick else 4)]
     results = sp.sim_map(dc.run_ddp_task, tasks, lambda r: bool(r.get("crash") or r.get("verdict") or r.get("param_mismatch") or any((r.get("errors") or {}).values())))
     ctx.put("worlds_not_reproduced_on_rerun", sum(1 for r in results if r.get("_flaky_first_run")))
     cases, verdicts = evaluate(ctx, tasks, results)
